@@ -466,7 +466,13 @@ func (s *sys) applyMain(ev string) error {
 		s.curIdle = 0
 		err = w.Settle()
 	case "FeedOld":
+		// through every entry point of the stale context: an RTMP message, an AudioSpecificConfig (which
+		// makes the context's remuxer emit a sequence header) and a raw AAC packet
 		s.send(s.oldCust)
+		s.oldCust.cust.FeedAudioSpecificConfig([]byte{0x11, 0x90})
+		idx := len(s.frames)
+		s.frames = append(s.frames, frame{idx, s.oldCust.id})
+		s.oldCust.cust.FeedAvPacket(base.AvPacket{PayloadType: base.AvPacketPtAac, Timestamp: int64(idx * 23), Pts: int64(idx * 23), Payload: aacPayload(idx)[2:]})
 		err = w.Settle()
 	case "J":
 		var p *world.RtmpPeer
